@@ -7,6 +7,6 @@ def main():
     mod=importlib.import_module('checks.'+sys.argv[1]); fn=getattr(mod, sys.argv[2]); tier=sys.argv[3] if len(sys.argv)>3 else 'quick'
     rep=Report(sys.argv[1].upper()[:3],tier)
     try: fn(rep,tier)
-    except Exception: traceback.print_exc()
+    except Exception as e: traceback.print_exc(); rep.inconc('exception: %r' % (e,))
     print('rc',rep.finish())
 t=threading.Thread(target=main); t.start(); t.join()
